@@ -835,6 +835,21 @@ fn check_csv_files(rep: &mut Report, dir: &std::path::Path) {
         let st3 = AnnotationStore::from_file(path.to_str().unwrap(), Config::default()).map_err(e)?;
         Ok((want, describe(&st3)))
     });
+    run(rep, "resource-in-a-sibling-directory-with-a-common-prefix", "the store is saved in <dir>/e1/, one of its resources lives in <dir>/e10/r.txt", &|sub| {
+        let (d1, d10) = (sub.join("e1"), sub.join("e10"));
+        std::fs::create_dir_all(&d1).map_err(|x| x.to_string())?; std::fs::create_dir_all(&d10).map_err(|x| x.to_string())?;
+        let txt = d10.join("r.txt");
+        std::fs::write(&txt, "hello world").map_err(|x| x.to_string())?;
+        let mut st = AnnotationStore::default().with_id("s");
+        st.add_resource(TextResourceBuilder::new().with_filename(txt.to_str().unwrap())).map_err(e)?;
+        let rid = st.resources().next().and_then(|r| r.id().map(|x| x.to_string())).ok_or("no id")?;
+        st.annotate(AnnotationBuilder::new().with_id("a1").with_target(SelectorBuilder::textselector(rid.as_str(), Offset::simple(0, 5))).with_data_with_id("set", "k", "v", "d1")).map_err(e)?;
+        let want = describe(&st);
+        let path = d1.join("x.store.stam.csv");
+        st.to_file(path.to_str().unwrap()).map_err(e)?;
+        let st2 = AnnotationStore::from_file(path.to_str().unwrap(), Config::default()).map_err(e)?;
+        Ok((want, describe(&st2)))
+    });
     run(rep, "resource-names-that-share-a-stem", "two in-memory resources whose identifiers share a stem (notes.txt, notes.md), saved as CSV and read back", &|sub| {
         let mut st = AnnotationStore::default().with_id("s").with_resource(TextResourceBuilder::new().with_id("notes.txt").with_text("first text")).map_err(e)?.with_resource(TextResourceBuilder::new().with_id("notes.md").with_text("second text")).map_err(e)?;
         st.annotate(AnnotationBuilder::new().with_id("a1").with_target(SelectorBuilder::textselector("notes.txt", Offset::simple(0, 5))).with_data_with_id("set", "k", "v", "d1")).map_err(e)?;
